@@ -469,6 +469,7 @@ class Run:
         self.reqs, self.exp, self.meta = [], [], []   # model requests, impl answers, info
         self.freqs = []                               # (request, impl floats, meta) tolerance
         self.kernel_vs_def = []                       # round 3: arguments of betw / betwdef pairs
+        self.kernel_vs_enum = []                      # round 5: arguments of betw / betwenum pairs
         self.sigma_reqs = []
         self.newman_def = []                          # round 4
 
@@ -783,6 +784,13 @@ def check_graph(ctx, run, A, directed, family, tier):
                 src = [1 if v in S else 0 for v in nodes]
                 run.approx(f"betw {m} {enc_vec([1] * n)} {enc_vec(src)} {enc_vec(T)}", [fl(got)],
                            ("betw", A, directed))
+                # round 5: the public-method model (sources / targets as node lists, nsi=False) and the
+                # counting definition over enumerated shortest paths (theorem interregionalBetweenness_eq_count)
+                run.approx(f"betwapi {m} {enc_vec([1] * n)} {enc_vec(S)} {enc_vec(T)} 0", [fl(got)],
+                           ("betwapi", A, directed))
+                if n <= 9:
+                    run.approx(f"betwcount {m} {enc_vec(S)} {enc_vec(T)}", [fl(got)], ("betwcount", A, directed))
+                    ctx.count("model:betwcount")
         if n and A.any():
             got2 = oracle_vec("interregional_betweenness", [2 * x for x in orc.betweenness()],
                               sources=nodes, targets=nodes,
@@ -1072,6 +1080,29 @@ def extended_checks(ctx, run, A, directed, tier):
             if st == "ok":
                 run.approx(f"betw {enc_mat(A)} {enc_frs(w)} {enc_vec([1] * n)} {enc_vec(nodes)}",
                            [fl(got)], ("betw-default-rel", A, directed))
+                run.approx(f"betwapi {enc_mat(A)} {enc_frs(w)} none none 1",
+                           [fl(got)], ("betwapi-default-rel", A, directed))
+            # round 5: nsi=False on a network that carries non-unit node weights (weights must be ignored),
+            # defaults and unsorted / repeated targets through the public-method model
+            T3 = [rng.choice(nodes) for _ in range(rng.randrange(1, n + 2))]
+            kw3 = rng.choice([{}, {"sources": S}, {"targets": T3}, {"sources": S, "targets": T3}])
+            st, got = quiet(netw.interregional_betweenness, **kw3)
+            ctx.count("wrapper:interregional:weighted-network:" + "+".join(sorted(kw3)) if kw3
+                      else "wrapper:interregional:weighted-network:defaults")
+            if st == "ok":
+                so = enc_vec(kw3["sources"]) if "sources" in kw3 else "none"
+                to = enc_vec(kw3["targets"]) if "targets" in kw3 else "none"
+                run.approx(f"betwapi {enc_mat(A)} {enc_frs(w)} {so} {to} 0", [fl(got)],
+                           ("betwapi-unit-on-weighted", A, directed))
+                if n <= 8:
+                    run.approx(f"betwcount {enc_mat(A)} {enc_vec(kw3.get('sources', nodes))} "
+                               f"{enc_vec(kw3.get('targets', nodes))}", [fl(got)],
+                               ("betwcount-wrapper", A, directed))
+            else:
+                ctx.fail(sig("api", "interregional_betweenness", arguments="weighted-network"),
+                         f"interregional_betweenness raised {got} on a network with node weights",
+                         rp("interregional_betweenness", "no exception", got, **{k: list(map(int, v))
+                                                                                 for k, v in kw3.items()}))
             st, got = quiet(netw.nsi_local_clustering)
             if st == "ok":
                 run.approx(f"nsiclust {enc_mat(A)} {enc_frs(w)}", [fl(got)],
@@ -1494,6 +1525,11 @@ def round3_checks(ctx, run, A, directed, tier):
             run.kernel_vs_def.append(args)
             if n <= 9:
                 run.sigma_reqs.append(f"sigma {m} {enc_frs(w)} {rng.choice(nodes)}")
+                # round 5: the implementation against the definition by ENUMERATION of all shortest paths
+                # (right-hand side of `nsiBetweenness_eq_enumeration`), and the same inside the model
+                run.approx("betwenum " + args, [fl(got)], ("betwenum-rel", A, directed))
+                run.kernel_vs_enum.append(args)
+                ctx.count("model:betwenum")
         # a second call on the same object with other sources / targets (cached worker, different key)
         S2 = sorted(rng.sample(nodes, rng.randrange(1, n + 1)))
         T2 = sorted(rng.sample(nodes, rng.randrange(1, n + 1)))
@@ -1745,6 +1781,13 @@ def run(ctx):
                    "correspondence", not badk, "\n".join(badk[:5]))
     ctx.obligation(f"model: path-count recursion == sum over all enumerated shortest paths, exact "
                    f"({len(run_.sigma_reqs)} requests)", "correspondence", not bads, "\n".join(bads[:5]))
+
+    ke = run_.kernel_vs_enum
+    anse = common.driver(ctx.pid, ["betw " + a for a in ke] + ["betwenum " + a for a in ke])
+    bade = [ke[i][:200] for i in range(len(ke)) if anse[i] != anse[len(ke) + i] or anse[i] == "bad-request"]
+    ctx.obligation(f"model: kernel _nsi_betweenness == double sum over all ENUMERATED shortest paths, exact "
+                   f"({len(ke)} requests; theorem nsiBetweenness_eq_enumeration)", "correspondence", not bade,
+                   "\n".join(bade[:5]))
 
     nd = run_.newman_def
     ansn = common.driver(ctx.pid, nd)
